@@ -10,7 +10,7 @@ class C16(SCheck):
     prop = "C16"
     level = "exploration"
     default_seed = 16016
-    N = {"quick": 390, "thorough": 8000}
+    N = {"quick": 780, "thorough": 8000}
     K = {"quick": 1, "thorough": 2}
     technique = "deterministic simulation (input-driven): every rejection class x argument position x destination state under the supervisor; whole-sandbox snapshot before/after + trace shows no mutating call"
     rule = ("case = one rejection class (no source; missing source at each position among valid ones, literally or with --glob; directory "
